@@ -5,6 +5,7 @@ package verifh
 
 import (
 	"context"
+	"database/sql"
 	"strconv"
 	"time"
 
@@ -73,9 +74,11 @@ func (d stubDialector) Initialize(db *gorm.DB) error {
 	callbacks.RegisterDefaultCallbacks(db, cfg)
 	return nil
 }
-func (stubDialector) Migrator(*gorm.DB) gorm.Migrator                { return nil }
-func (stubDialector) DataTypeOf(*schema.Field) string                { return "" }
-func (stubDialector) DefaultValueOf(*schema.Field) clause.Expression { return clause.Expr{SQL: "DEFAULT"} }
+func (stubDialector) Migrator(*gorm.DB) gorm.Migrator { return nil }
+func (stubDialector) DataTypeOf(*schema.Field) string { return "" }
+func (stubDialector) DefaultValueOf(*schema.Field) clause.Expression {
+	return clause.Expr{SQL: "DEFAULT"}
+}
 func (d stubDialector) BindVarTo(w clause.Writer, stmt *gorm.Statement, v interface{}) {
 	rec := bindRec{pos: stmt.SQL.Len(), val: v}
 	if d.numbered {
@@ -136,4 +139,13 @@ func openReal(d stubDialector, s *Store, cfg *gorm.Config) *gorm.DB {
 		panic("open: " + err.Error())
 	}
 	return db
+}
+
+// dbPool returns the *sql.DB behind a handle opened by openReal.
+func dbPool(db *gorm.DB) *sql.DB {
+	p, err := db.DB()
+	if err != nil {
+		panic("db.DB: " + err.Error())
+	}
+	return p
 }
